@@ -1048,34 +1048,54 @@ def staticcallI : IState → Outcome :=
                     targetAddress := to, caller := s.target, valueTransfer := true, value := 0,
                     scheme := .staticCall, isStatic := true, isEof := false }))
 
+/-- `check!(interp, FORK)` under a compile-time condition (`if IS_CREATE2 { check!(..) }`) -/
+def checkWhen (b : Bool) (fork : Nat) : M Unit := if b then check fork else pure ()
+
+/-- `cfg.limit_contract_code_size.map(|l| l.saturating_mul(2)).unwrap_or(MAX_INITCODE_SIZE)` -/
+def maxInitcodeSize (e : Env) : Nat :=
+  match e.limitContractCodeSize with
+  | some l => U64ops.saturatingMul l 2
+  | none => MAX_INITCODE_SIZE
+
+/-- the EIP-3860 part of `create` (only for `len != 0`): the size limit from `host.env().cfg`, then
+`gas!(initcode_cost(len))` (`initcode_cost` panics on overflow) -/
+def initcodeCharge (len : Nat) : M Unit := do
+  let s ← getS
+  if enabled s.spec GasCalc.SpecId.SHANGHAI then
+    if len > maxInitcodeSize s.env then haltWith .CreateInitCodeSizeLimit else
+    match GasCalc.initcodeCost len with
+    | some c => gasCharge c
+    | none => faultWith .panic
+  else pure ()
+
+/-- the init code of `create`: nothing for `len == 0`, else limit + charge, `as_usize_or_fail!(code_offset)`,
+`resize_memory!`, copy -/
+def createCode (codeOffset len : Nat) : M (List Nat) :=
+  if len ≠ 0 then do
+    initcodeCharge len
+    let codeOffset ← asUsizeOrFail codeOffset
+    resizeMem codeOffset len
+    memSlice codeOffset len
+  else pure []
+
+/-- `CreateScheme` and its charge: CREATE2 pops the salt and pays `create2_cost(len)`, CREATE pays `gas::CREATE` -/
+def createScheme (isCreate2 : Bool) (len : Nat) : M (Option Nat) :=
+  if isCreate2 then do
+    let salt ← pop1
+    gasOrFail (GasCalc.create2Cost len)
+    pure (some salt)
+  else do
+    gasCharge GasCalc.CREATE
+    pure none
+
 /-- `contract::create::<IS_CREATE2>` (reads `host.env().cfg` only) -/
 def createI (isCreate2 : Bool) : M Action := do
   requireNonStatic
-  if isCreate2 then check GasCalc.SpecId.PETERSBURG else pure ()
+  checkWhen isCreate2 GasCalc.SpecId.PETERSBURG
   let (value, codeOffset, len) ← pop3
   let len ← asUsizeOrFail len
-  let code ← (if len ≠ 0 then do
-      let s ← getS
-      if enabled s.spec GasCalc.SpecId.SHANGHAI then do
-        let maxInitcodeSize := match s.env.limitContractCodeSize with
-          | some l => U64ops.saturatingMul l 2
-          | none => MAX_INITCODE_SIZE
-        if len > maxInitcodeSize then haltWith .CreateInitCodeSizeLimit else
-        match GasCalc.initcodeCost len with
-        | some c => gasCharge c
-        | none => faultWith .panic
-      else pure ()
-      let codeOffset ← asUsizeOrFail codeOffset
-      resizeMem codeOffset len
-      memSlice codeOffset len
-    else pure [])
-  let salt ← (if isCreate2 then do
-      let salt ← pop1
-      gasOrFail (GasCalc.create2Cost len)
-      pure (some salt)
-    else do
-      gasCharge GasCalc.CREATE
-      pure none)
+  let code ← createCode codeOffset len
+  let salt ← createScheme isCreate2 len
   let s ← getS
   let gasLimit := s.gas.remaining
   let gasLimit := if enabled s.spec GasCalc.SpecId.TANGERINE then U64ops.wsub gasLimit (gasLimit / 64) else gasLimit
